@@ -235,6 +235,12 @@ func (x *Ctx) containerWriters(r *core.Result, rs *core.RuleStat, st *types.Stru
 		if c := x.canon(fn); c != fn.Name() {
 			k = strings.TrimSuffix(k, fn.Name()) + c
 		}
+		// the pool functions keep their role when they are plain functions instead of methods
+		for _, role := range []string{"ValueReader.borrowValueReader", "ValueReader.returnValueReader"} {
+			if x.Role(role) == fn {
+				k = role
+			}
+		}
 		return k
 	}
 	oi, ai := fieldIdx(st, x.fld("objVal")), fieldIdx(st, x.fld("arrVal"))
